@@ -3,7 +3,7 @@ use crate::rng::Rng;
 use crate::universe::*;
 
 #[derive(Clone, Copy, PartialEq, Eq, Debug)]
-pub enum Kind { General, Soft, ConflictFree, Hints, Tight, Lazy, CycleMerge, SoftBackjump, LazyUnsat, FalseThenTrue, SoftPoison, Tower }
+pub enum Kind { General, Soft, ConflictFree, Hints, Tight, Lazy, CycleMerge, SoftBackjump, LazyUnsat, FalseThenTrue, SoftPoison, Tower, Gadgets }
 
 pub struct Generated { pub u: Universe, pub p: Problem }
 
@@ -36,6 +36,47 @@ pub fn generate(rng: &mut Rng, kind: Kind) -> Generated {
         }
     }
     g
+}
+
+/// Many small conflicts in one solve: 18..28 independent gadgets, each of which costs the solver at least one conflict (the
+/// preferred candidate of `g` needs `x` and `y`, and `y` constrains `x` away from its preferred candidate; in some gadgets the
+/// fallback of `x` is excluded as well, so that `g` itself has to fall back). Anything the solver does every n-th conflict -
+/// restarts, activity rescaling, clause-database housekeeping - only shows on inputs like this; the other shapes stay below
+/// ten conflicts.
+pub fn generate_gadgets(rng: &mut Rng) -> Generated {
+    let mut u = Universe::default();
+    let mut p = Problem::default();
+    let k = rng.range(18, 28) as u32;
+    let hint_all = rng.chance(1, 3);
+    let mut next_s = 0u32;
+    let mut next_v = 0u32;
+    for i in 0..k {
+        let (gn, xn, yn) = (3 * i, 3 * i + 1, 3 * i + 2);
+        let (g2, g1, x2, x1, y2, y1) = (next_s, next_s + 1, next_s + 2, next_s + 3, next_s + 4, next_s + 5);
+        next_s += 6;
+        let (vg, vx, vy, vx1) = (next_v, next_v + 1, next_v + 2, next_v + 3);
+        next_v += 4;
+        let hint = if hint_all { Hint::All } else { Hint::None };
+        u.pkgs.insert(gn, Pkg { cands: vec![g2, g1], hint: hint.clone(), ..Default::default() });
+        let mut xp = Pkg { cands: vec![x2, x1], hint: hint.clone(), ..Default::default() };
+        if rng.chance(1, 4) { xp.excluded.push((x1, 0)); }
+        u.pkgs.insert(xn, xp);
+        u.pkgs.insert(yn, Pkg { cands: vec![y2, y1], hint, ..Default::default() });
+        u.vsets.insert(vg, VSet { name: gn, matching: vec![g2, g1] });
+        u.vsets.insert(vx, VSet { name: xn, matching: vec![x2, x1] });
+        u.vsets.insert(vy, VSet { name: yn, matching: vec![y2, y1] });
+        u.vsets.insert(vx1, VSet { name: xn, matching: vec![x1] });
+        // x is required before y, so it is decided first; both candidates of y then rule the chosen x=2 out
+        u.solvs.insert(g2, Solv { name: gn, rank: 0, deps: Deps::Known { reqs: vec![Req::Single(vx), Req::Single(vy)], cons: vec![] } });
+        u.solvs.insert(g1, Solv { name: gn, rank: 1, deps: Deps::Known { reqs: vec![], cons: vec![] } });
+        u.solvs.insert(x2, Solv { name: xn, rank: 0, deps: Deps::Known { reqs: vec![], cons: vec![] } });
+        u.solvs.insert(x1, Solv { name: xn, rank: 1, deps: Deps::Known { reqs: vec![], cons: vec![] } });
+        u.solvs.insert(y2, Solv { name: yn, rank: 0, deps: Deps::Known { reqs: vec![], cons: vec![vx1] } });
+        u.solvs.insert(y1, Solv { name: yn, rank: 1, deps: Deps::Known { reqs: vec![], cons: vec![vx1] } });
+        p.reqs.push(Req::Single(vg));
+    }
+    rng.shuffle(&mut p.reqs);
+    Generated { u, p }
 }
 
 /// A ladder of diamonds: packages x0..xN with 2-3 versions each, every version of x(i) requires a (random) two of the
@@ -324,6 +365,7 @@ pub fn generate_soft_poison(rng: &mut Rng) -> Generated {
 pub fn generate_opts(rng: &mut Rng, kind: Kind, force_sparse: bool) -> Generated {
     if kind == Kind::CycleMerge { return generate_cycle_merge(rng); }
     if kind == Kind::Tower { return generate_tower(rng); }
+    if kind == Kind::Gadgets { return generate_gadgets(rng); }
     if kind == Kind::SoftPoison || (kind == Kind::Soft && rng.chance(1, 12)) { return generate_soft_poison(rng); }
     if kind == Kind::FalseThenTrue { let h = rng.chance(2, 3); return generate_false_then_true(rng, h); }
     if kind == Kind::Hints && rng.chance(1, 8) { return generate_false_then_true(rng, true); }
